@@ -145,6 +145,11 @@ func oracleC09(in map[string]any, main implStatic, variants []implStatic) ([]Vio
 		tags["cause:"+gs(x, "cause")] = true
 		tags["file:"+gs(x, "file")] = true
 	}
+	// a feed without offending rows gives no warning of a kind the model does not know (those are outside the
+	// comparison with the model; the warnings the model knows are compared there)
+	if variants[0].canon != nil && len(variants[0].canon.otherWarnings) > 0 {
+		l.add("c09-warning-without-offence", "the feed without the inserted rows has no offending row, yet it is given %d warning(s) of kind %s", len(variants[0].canon.otherWarnings), variants[0].canon.otherWarnings[0])
+	}
 	// warnings of the run with bad rows that the clean run does not have must each describe an inserted row
 	clean := map[string]bool{}
 	for _, w := range variants[0].s.Warnings {
